@@ -193,13 +193,26 @@ Fixpoint m_commit_after_retry_go (es : list entry) (settled : list Z) (entered :
       end
   end.
 
-(* events (ids) of given-up batches, from the OutSaw entry of that seq (iterable events) *)
+(* content of every sealed batch (all events, child-parent ones included): the Add labels since the previous Seal *)
+Fixpoint batches_go (es : list entry) (cur : list Z) (acc : list (Z * list Z)) : list (Z * list Z) :=
+  match es with
+  | [] => rev acc
+  | e :: r =>
+      match ekind_raw e, eargs e with
+      | 1, id :: _ => batches_go r (id :: cur) acc
+      | 3, seq :: _ => batches_go r [] ((seq, rev cur) :: acc)
+      | _, _ => batches_go r cur acc
+      end
+  end.
+
+(* events (ids) of given-up batches: everything onRetryError receives *)
 Definition failed_ids (es : list entry) : list Z :=
+  let bs := batches_go es [] [] in
   flat_map (fun a => match a with
                      | seq :: _ =>
-                         match find (fun o => match o with s :: _ => s =? seq | [] => false end) (args_of_kind 102 es) with
-                         | Some (_ :: ids) => ids
-                         | _ => []
+                         match find (fun b => fst b =? seq) bs with
+                         | Some b => snd b
+                         | None => []
                          end
                      | [] => []
                      end) (args_of_kind 14 es).
